@@ -183,8 +183,48 @@ def plan(row, tier, seed, full):
     return cases
 
 
+def override_history(part, row, seed):
+    """
+    the documented covalent_radii= override of unit_cell_connectivity / unit_cell_molecules on one crystal must be honoured
+    there and must not leak into crystals analysed afterwards with the defaults (and vice versa): all orders of
+    {default analysis, overridden analysis} of length 3
+    """
+    case0 = {"number": row["number"], "choice": row["choice"], "zkind": "1", "centre": [0.137, 0.289, 0.611], "orient": 1, "seed": seed}
+    ops, cell, asym, imgs = make(row, case0)
+    ok, why = mol.precondition(asym, imgs)
+    if not ok:
+        part.skip(why)
+        return
+    sk = "%d:%s" % (row["number"], row["choice"])
+    for hist in itertools.product(("default", "override"), repeat=3):
+        part.ev()
+        for step, what in enumerate(hist):
+            part.tr()
+            c = xtal.make_crystal(row["number"], row["choice"], cell, asym["symbols"], asym["frac"])
+            case = dict(case0, kind="override", hist=list(hist[: step + 1]))
+            try:
+                if what == "override":
+                    mols = c.unit_cell_molecules(covalent_radii={8: 0.05})   # O-H threshold 0.68 A: no O-H bond left
+                    n_uc = len(c.unit_cell_atoms()["element"])
+                    if len(mols) != n_uc:
+                        part.fail("override-ignored", "covalent_radii override not honoured in %s: %d molecules for %d atoms (no bond should remain)" % (sk, len(mols), n_uc), case)
+                else:
+                    mols = c.unit_cell_molecules()
+                    if len(mols) != len(imgs) or any(len(m) != 3 for m in mols):
+                        part.fail("override-leaks:after-%s" % (hist[step - 1] if step else "start"),
+                                  "default analysis of %s after the history %s gives %d molecules (expected %d whole waters): an earlier covalent_radii override leaked"
+                                  % (sk, list(hist[:step]), len(mols), len(imgs)), case)
+            except Exception as e:
+                part.fail("override-raise", "unit_cell_molecules(%s) raised %r in %s" % (what, e, sk), case)
+        part.outcome(("override", hist))
+    part.nstates(8)
+
+
 def worker(part, job, tier, seed):
     row, full = job
+    if full == "override":
+        override_history(part, row, seed)
+        return
     sk = "%d:%s" % (row["number"], row["choice"])
     n_ok = 0
     for case in plan(row, tier, seed, full):
@@ -212,12 +252,14 @@ def run(ctx):
             elif r["number"] in full_numbers:
                 jobs.append((r, False))
     jobs.sort(key=lambda j: -len(j[0]["symops"]) * (30 if j[1] else 1))
+    jobs += [(r, "override") for r in table if (r["number"], r["choice"]) in ((2, ""), (14, "b1"), (19, ""), (148, "H"))]
     ctx.rule = ("rigid molecules {H2O, CO, CO2, CH4}, Z' in {1, 2 equal, 2 different sizes}, centres on the grid %s^3 (molecules straddle "
                 "0..3 faces), 3 orientations; settings: %d; cases failing the property's precondition (decided by the reference) are "
                 "skipped and counted; distinct = (setting, Z' kind, centre, orientation) cases that passed the precondition"
                 % (list(mol.CENTRES), len(jobs)))
     ctx.bounds = {"settings": len(jobs), "full_grid_settings": sum(1 for j in jobs if j[1]), "centres": list(mol.CENTRES),
-                  "zprime_kinds": list(mol.ZPRIME), "contact_margin_A": mol.MARGIN}
+                  "zprime_kinds": list(mol.ZPRIME), "contact_margin_A": mol.MARGIN,
+                  "override_histories": "all 8 orders of {default, covalent_radii override} of length 3 in 4 settings"}
     ctx.assumptions = ["covalent radii / masses are read from the library's element table as data; bonding rule d < cov_a+cov_b+0.4 as documented",
                        "cases with any intermolecular contact below bonding threshold + 0.5 A, or a centre of mass within 1e-6 of a cell face, are outside the property's quantifier"]
     ctx.pmap(worker, jobs, tier=ctx.tier, seed=ctx.seed)
@@ -228,6 +270,9 @@ def run(ctx):
 def replay(ctx, case):
     table = symm.load_table()
     for r in table:
+        if case.get("kind") == "override" and r["number"] == case["number"] and r["choice"] == case["choice"]:
+            override_history(ctx, r, case.get("seed", 0))
+            return
         if r["number"] == case["number"] and r["choice"] == case["choice"]:
             res = check_case(ctx, r, case)
             if res is None:
